@@ -151,7 +151,7 @@ func (o *c08Oracle) after(ch *chain, ci *callInfo) *Violation {
 }
 
 func genC08(t *rapid.T, tier string) interface{} {
-	pr := &histProfile{MaxBlocks: 1, TxKinds: []string{"unjail", "unjail", "stake", "send"}, MaxTxs: 2}
+	pr := &histProfile{MaxBlocks: 1, TxKinds: []string{"unjail", "unjail", "stake", "send", "unstake"}, MaxTxs: 2}
 	p := &hProg{Gen: genGenesis(t, pr)}
 	g := &p.Gen
 	g.Window = int64(rapid.IntRange(10, 40).Draw(t, "window"))
